@@ -33,9 +33,11 @@ structure DbOp where
   size : Nat
   read : Bool
   write : Bool
-  /-- accessed bit range `[lo, lo+width)` of the operand; width 0 = the database gives none -/
+  /-- written bit range `[lo, lo+width)` of the operand; width 0 = the database gives none -/
   lo : Nat
   width : Nat
+  /-- read bit range `[lo, lo+rwidth)`; differs from the written one for `imul ax, r/m8` (AL), `punpckl*` (low half) … -/
+  rwidth : Nat
   /-- k > 0: this register is the k-th follower of a run (`k+1`, `zmm+3`, AArch64 list member) -/
   follower : Nat
   /-- n ≥ 2: this register leads a run of n consecutive registers -/
@@ -91,16 +93,29 @@ def accessOk (d : DbOp) (i : ImplOp) : Bool :=
   (!d.read || hasBits i.flags fRead) &&
   (!d.write || hasBits i.flags fWrite) &&
   -- byte level: general-purpose registers (property text) — reported masks contain the database's bit range
-  (!(d.kind == 1 && d.gp && d.read) || hasBits i.rmask (byteMask d.lo d.width)) &&
+  (!(d.kind == 1 && d.gp && d.read) || hasBits i.rmask (byteMask d.lo d.rwidth)) &&
   (!(d.kind == 1 && d.gp && d.write) || hasBits i.wmask (byteMask d.lo d.width))
 
-/-- zero extension of general-purpose destinations in 64-bit mode: a 32-bit write changes the whole 64-bit register, so written ∪
-    zero-extended bytes must be all eight; an 8/16-bit write must not claim any zero extension -/
+/-- byte masks of vector, mask, MMX, x87 and bound registers against the database's operand bit range (beyond the letter of the
+    property, which restricts byte-level claims to general-purpose registers; judged at the coordinator's request): the read mask
+    contains the range; written ∪ zero-extended bytes contain the range (mask-register destinations are reported as an empty write
+    mask plus a full "zero-extended" mask, which covers what the CPU changes) -/
+def wideMaskOk (d : DbOp) (i : ImplOp) : Bool :=
+  (!(d.kind == 1 && !d.gp && d.read) || hasBits i.rmask (byteMask d.lo d.rwidth)) &&
+  (!(d.kind == 1 && !d.gp && d.write) || hasBits (Nat.lor i.wmask i.emask) (byteMask d.lo d.width))
+
+/-- zero extension of general-purpose destinations.  64-bit mode: a 32-bit write changes the whole 64-bit register, so written ∪
+    zero-extended bytes must be all eight; an 8/16-bit write must not claim any zero extension.  32-bit mode: nothing may be
+    claimed beyond the four bytes of the register, and an 8/16-bit write claims no zero extension either. -/
 def zextOk (mode64 : Bool) (d : DbOp) (i : ImplOp) : Bool :=
-  if d.kind == 1 && d.gp && d.write && mode64 then
-    if d.size == 4 then hasBits (Nat.lor i.wmask i.emask) 0xFF
-    else if d.size < 4 then !hasBits i.flags fZExt && i.emask == 0
-    else i.emask == 0
+  if d.kind == 1 && d.gp && d.write then
+    if mode64 then
+      if d.size == 4 then hasBits (Nat.lor i.wmask i.emask) 0xFF
+      else if d.size < 4 then !hasBits i.flags fZExt && i.emask == 0
+      else i.emask == 0
+    else
+      if d.size < 4 then !hasBits i.flags fZExt && i.emask == 0
+      else Nat.land (Nat.lor i.wmask i.emask) 0xFFFFFFFFFFFFFFF0 == 0
   else true
 
 /-- consecutive-register runs are reported: lead count on the leader, `kConsecutive` on the followers -/
@@ -118,7 +133,7 @@ def regMemOk (lenient : Bool) (d : DbOp) (i : ImplOp) : Bool :=
   else true
 
 def opOk (lenient mode64 : Bool) (d : DbOp) (i : ImplOp) : Bool :=
-  if d.kind == 0 then true else accessOk d i && zextOk mode64 d i && runOk d i && regMemOk lenient d i
+  if d.kind == 0 then true else accessOk d i && zextOk mode64 d i && runOk d i && regMemOk lenient d i && wideMaskOk d i
 
 def opsOk (lenient mode64 : Bool) : List DbOp → List ImplOp → Bool
   | [], [] => true
@@ -146,7 +161,7 @@ def rowWhy (r : Row) : String :=
   let bad := (r.dbOps.zip r.implOps).zipIdx.filterMap fun ((d, i), n) =>
     if opOk false r.mode64 d i then none else
     some (if !accessOk d i then s!"access op{n}" else if !zextOk r.mode64 d i then s!"zext op{n}"
-          else if !runOk d i then s!"consecutive op{n}"
+          else if !runOk d i then s!"consecutive op{n}" else if !wideMaskOk d i then s!"widemask op{n}"
           else if d.memAlt.isEmpty then s!"regmem-no-memory-form op{n}" else s!"regmem-wrong-size op{n}")
   -- a failure outside the finding's class is reported first
   match bad.filter (fun w => !w.startsWith "regmem-no-memory-form") ++ bad with
@@ -157,16 +172,16 @@ def rowWhy (r : Row) : String :=
 example : byteMask 0 32 = 0xF := by decide
 example : byteMask 8 8 = 0x2 := by decide
 example : byteMask 0 4096 = 0xFFFFFFFFFFFFFFFF := by decide
-example : opOk false true ⟨1, true, 4, true, true, 0, 32, 0, 0, true, [4]⟩ ⟨0x17, 255, 4, 0, 0xF, 0xF, 0xF0⟩ = true := by decide
+example : opOk false true ⟨1, true, 4, true, true, 0, 32, 32, 0, 0, true, [4]⟩ ⟨0x17, 255, 4, 0, 0xF, 0xF, 0xF0⟩ = true := by decide
 -- dropping the read flag, the zero extension, or claiming memory of a size the database has not, is rejected
-example : opOk false true ⟨1, true, 4, true, true, 0, 32, 0, 0, true, [4]⟩ ⟨0x16, 255, 4, 0, 0xF, 0xF, 0xF0⟩ = false := by decide
-example : opOk false true ⟨1, true, 4, true, true, 0, 32, 0, 0, true, [4]⟩ ⟨0x07, 255, 4, 0, 0xF, 0xF, 0⟩ = false := by decide
-example : opOk false true ⟨1, true, 4, true, true, 0, 32, 0, 0, true, [4]⟩ ⟨0x07, 255, 4, 0, 0xF, 0xFF, 0⟩ = true := by decide
-example : opOk false true ⟨1, true, 4, true, true, 0, 32, 0, 0, true, [4]⟩ ⟨0x17, 255, 8, 0, 0xF, 0xF, 0xF0⟩ = false := by decide
+example : opOk false true ⟨1, true, 4, true, true, 0, 32, 32, 0, 0, true, [4]⟩ ⟨0x16, 255, 4, 0, 0xF, 0xF, 0xF0⟩ = false := by decide
+example : opOk false true ⟨1, true, 4, true, true, 0, 32, 32, 0, 0, true, [4]⟩ ⟨0x07, 255, 4, 0, 0xF, 0xF, 0⟩ = false := by decide
+example : opOk false true ⟨1, true, 4, true, true, 0, 32, 32, 0, 0, true, [4]⟩ ⟨0x07, 255, 4, 0, 0xF, 0xFF, 0⟩ = true := by decide
+example : opOk false true ⟨1, true, 4, true, true, 0, 32, 32, 0, 0, true, [4]⟩ ⟨0x17, 255, 8, 0, 0xF, 0xF, 0xF0⟩ = false := by decide
 -- a 16-bit destination must not claim zero extension
-example : opOk false true ⟨1, true, 2, false, true, 0, 16, 0, 0, true, []⟩ ⟨0x12, 255, 0, 0, 0, 0x3, 0xFC⟩ = false := by decide
+example : opOk false true ⟨1, true, 2, false, true, 0, 16, 16, 0, 0, true, []⟩ ⟨0x12, 255, 0, 0, 0, 0x3, 0xFC⟩ = false := by decide
 -- mask pair `k, k+1`: lead count 2 on the leader, kConsecutive on the follower
-example : opOk false true ⟨1, false, 0, false, true, 0, 0, 0, 2, true, []⟩ ⟨0x2, 255, 0, 2, 0, 0xFF, 0⟩ = true := by decide
-example : opOk false true ⟨1, false, 0, false, true, 0, 0, 0, 2, true, []⟩ ⟨0x2, 255, 0, 0, 0, 0xFF, 0⟩ = false := by decide
+example : opOk false true ⟨1, false, 0, false, true, 0, 0, 0, 0, 2, true, []⟩ ⟨0x2, 255, 0, 2, 0, 0xFF, 0⟩ = true := by decide
+example : opOk false true ⟨1, false, 0, false, true, 0, 0, 0, 0, 2, true, []⟩ ⟨0x2, 255, 0, 0, 0, 0xFF, 0⟩ = false := by decide
 
 end Spec.RWCover
